@@ -28,4 +28,10 @@ cp /repo/Cargo.lock Cargo.lock 2>/dev/null
 cargo build --offline > ../build/cargo-build.log 2>&1
 rc2=$?
 if [ $rc2 != 0 ]; then grep -A12 '^error' ../build/cargo-build.log | head -40; fi
+# the OCI example's own server (C17 end to end)
+cd ../harness-oci
+cp /repo/Cargo.lock Cargo.lock 2>/dev/null
+cargo build --offline > ../build/cargo-build-oci.log 2>&1
+rc3=$?
+if [ $rc3 != 0 ]; then grep -A12 '^error' ../build/cargo-build-oci.log | head -40; rm -f target/debug/wfh-oci; fi    # never run a stale server
 [ $rc1 = 0 ] && [ $rc2 = 0 ]
